@@ -148,6 +148,9 @@ def _behave(beh: List[Any], args: tuple):
         if first < 0:
             raise ValueError("negative")
         return celtypes.IntType(beh[1] + first)
+    if b == "nest":
+        _nested_eval(beh[1])
+        return celtypes.IntType(beh[2] + sum(_weight(a) for a in args))
     if b == "lst":
         return celtypes.ListType(list(args))
     if b == "size":
@@ -159,6 +162,27 @@ def _behave(beh: List[Any], args: tuple):
             return celtypes.BoolType(any(_canon_arg(x) == _canon_arg(args[1]) for x in args[0]))
         raise TypeError("contains")
     raise RuntimeError(f"unknown behaviour {beh}")
+
+
+def _nested_eval(runner: str):
+    """RE-ENTRANCY: while a host function of the outer program runs, build and evaluate ANOTHER program (own Environment,
+    own functions `f`, `g`, own override of `size`).  The inner program must see its functions, and — checked by the
+    outer program's oracle — the outer evaluation must go on with ITS functions afterwards.  The inner functions do
+    not log; a wrong inner result is logged as a call of `NESTED-WRONG`, which no reference permits."""
+    import celpy
+    from celpy import celtypes
+    from .. import celrun
+    inner = {"f": lambda *a: celtypes.IntType(1000 + sum(_weight(x) for x in a)),
+             "g": lambda *a: celtypes.IntType(5000 + sum(_weight(x) for x in a)),
+             "size": lambda *a: celtypes.IntType(50)}
+    try:
+        env = celpy.Environment(runner_class=celrun.RUNNERS[runner])
+        prog = env.program(env.compile("g(1) + size([1, 2]) + (2).f() + [7].map(x, f(x))[0]"), functions=inner)
+        got = celrun.canon(prog.evaluate({}))
+    except Exception as ex:  # noqa
+        got = "EXC " + type(ex).__name__
+    if got != "int:7060":
+        REC.append(("NESTED-WRONG", (got,)))
 
 
 def _make_callable(spec: Dict[str, Any], slot: int):
@@ -335,6 +359,8 @@ def to_lean(t) -> str:
 def lean_beh(beh) -> str:
     if beh[0] == "const":
         return "const " + lean_val(beh[1])
+    if beh[0] == "nest":                       # to the model (and to the outer program) it is a function returning k + Σ weights
+        return f"sum {beh[2]}"
     return " ".join(str(x) for x in beh)
 
 
@@ -399,6 +425,8 @@ def s_behave(beh, args):
         return ERRV if first < 0 else ("i", beh[1] + first)
     if b == "raiseneg":
         return ERRR if first < 0 else ("i", beh[1] + first)
+    if b == "nest":
+        return ("i", beh[2] + sum(s_weight(a) for a in args))
     if b == "lst":
         return ("L", list(args))
     if b == "size":
@@ -871,7 +899,7 @@ def repeat_cases() -> List[Dict[str, Any]]:
     cases = []
     F1, F0 = ["call", "f", [I(1)]], ["call", "f", []]
     for bname, beh in {"ok": ["sum", 100], "errv": ["errv"], "ve": ["raise", "ValueError"], "neg": ["errneg", 10]}.items():
-        for ck, style in (("nested", "D"), ("mod", "L"), ("obj", "D"), ("bound", "L"), ("main", "D")):
+        for ck, style in (("nested", "D"), ("mod", "L"), ("obj", "D")):
             fns = [{"key": "f", "ckind": ck, "beh": beh, "pyname": "f"},
                    {"key": "g", "ckind": "lambda", "beh": ["sum", 7], "pyname": "g"},
                    {"key": "p", "ckind": "nested", "beh": ["pos"], "pyname": "p"}]
@@ -904,14 +932,34 @@ def repeat_cases() -> List[Dict[str, Any]]:
                 for e in (["add", F1, ["call", "g", [I(2)]]], ["all", L(1, 2), ["lt", ["call", "f", [["v", 0]]], I(1000)]]):
                     p1 = {"runner": rn, "style": style, "fns": fns, "expr": e, "bind": ck == "obj"}
                     cases.append({"kind": "again", "rel": "same", "progs": [p1, dict(p1, again=True), dict(p1, again=True)]})
+    # re-entrancy: the host function `n` evaluates another program (runner `inner`, its own f / g / size) while the outer
+    # evaluation is under way; afterwards the outer program must still apply ITS functions
+    for outer, inner, style in itertools.product("IC", "IC", "DL"):
+        fns = [{"key": "n", "ckind": "nested", "beh": ["nest", inner, 30], "pyname": "n"},
+               {"key": "f", "ckind": "mod" if style == "L" else "lambda", "beh": ["sum", 100], "pyname": "f"},
+               {"key": "size", "ckind": "nested", "beh": ["sum", 77], "pyname": "size"},
+               {"key": "p", "ckind": "obj", "beh": ["pos"], "pyname": "p"}]
+        N1 = ["call", "n", [I(1)]]
+        for e in (["add", N1, F1], ["add", N1, ["call", "size", [L(1, 2)]]], ["add", F1, ["add", N1, F1]],
+                  ["call", "f", [N1]], ["meth", "f", N1, [["call", "g", [I(1)]]]],
+                  ["or", ["lt", N1, F1], ["call", "p", [I(1)]]],
+                  ["all", L(1, 2), ["lt", ["add", ["call", "n", [["v", 0]]], ["call", "f", [["v", 0]]]], I(1000)]],
+                  ["add", N1, ["call", "nosuch", [I(1)]]]):
+            cases.append({"kind": "reentrant", "rel": None, "progs": [{"runner": outer, "style": style, "fns": fns, "expr": e,
+                                                                        "bind": outer == inner}]})
+        fns2 = [fns[0], fns[1]]
+        cases.append({"kind": "reentrant", "rel": None, "progs": [
+            {"runner": outer, "style": style, "fns": fns2, "expr": ["add", N1, ["call", "size", [L(1, 2)]]]}]})     # the built-in size, after the inner override
     # the same name, the same arguments, ANOTHER function in the next program (one Environment or two)
-    for share in (True, False):
+    for share, first in itertools.product((True, False), (False, True)):
         for r1, r2 in itertools.product("IC", "IC"):
             for st1, st2 in (("D", "D"), ("L", "D"), ("D", "L")):
                 fa = [{"key": "f", "ckind": "nested", "beh": ["sum", 100], "pyname": "f"}, {"key": "h", "ckind": "lambda", "beh": ["sum", 1], "pyname": "h"}]
-                fb = [{"key": "f", "ckind": "mod", "beh": ["sum", 7], "pyname": "f"}]
+                fb = [{"key": "f", "ckind": "obj", "beh": ["sum", 7], "pyname": "f"}]
                 e = ["add", F1, ["call", "f", [I(1), I(2)]]]
-                cases.append({"kind": "rebind", "rel": None, "share_env": share, "progs": [
+                # build_first: all five programs are built before the first one is evaluated (closures only: the
+                # module-level defs of the harness share one dispatch table per module)
+                cases.append({"kind": "rebind", "rel": None, "share_env": share, "build_first": first, "progs": [
                     {"runner": r1, "style": st1, "fns": fa, "expr": e}, {"runner": r2, "style": st2, "fns": fb, "expr": e},
                     {"runner": r2, "style": st2, "fns": fb, "expr": ["add", ["call", "h", [I(1)]], I(1)]},      # h is unbound now
                     {"runner": r1, "style": "N", "fns": [], "expr": F1},                                          # … and so is f
@@ -1015,25 +1063,14 @@ class C14(Prop):
         return cases
 
     # ---- implementation ----------------------------------------------------------------------------
-    def run_prog(self, p, envs: Optional[Dict[str, Any]] = None) -> str:
+    @staticmethod
+    def _exc(ex) -> str:
+        return "EXC RecursionError" if isinstance(ex, RecursionError) else f"EXC {type(ex).__name__}"
+
+    def build_prog(self, p, envs: Optional[Dict[str, Any]] = None):
+        """-> (program object, None) or (None, 'EXC <Class>')"""
         import celpy
-        from celpy.evaluation import CELEvalError
         from .. import celrun
-        REC.clear()
-        if p.get("again") and self._last is not None:
-            # evaluate the program object of the previous step once more (same runner object, same activation)
-            try:
-                try:
-                    v = self._last.evaluate({"zz": celpy.celtypes.IntType(1)} if p.get("bind") else {})
-                    val = celrun.canon(v)
-                except CELEvalError:
-                    val = "err"
-            except RecursionError:
-                val = "EXC RecursionError"
-            except Exception as ex:  # noqa
-                val = f"EXC {type(ex).__name__}"
-            return f"{val} | " + ";".join(f"{n}({','.join(a)})" for n, a in REC)
-        self._last = None
         try:
             fobjs = [(s, _make_callable(s, i)) for i, s in enumerate(p["fns"])]
             if p["style"] == "N":
@@ -1047,30 +1084,47 @@ class C14(Prop):
             else:
                 env = celpy.Environment(runner_class=celrun.RUNNERS[p["runner"]])
             ast = env.compile(to_cel(p["expr"]))
-            prog = env.program(ast, functions=functions)
-            self._last = prog
-            REC.clear()
+            return env.program(ast, functions=functions), None
+        except Exception as ex:  # noqa
+            return None, self._exc(ex)
+
+    def eval_prog(self, prog, p) -> str:
+        import celpy
+        from celpy.evaluation import CELEvalError
+        from .. import celrun
+        REC.clear()
+        try:
             try:
                 # with bindings the runners work on a *clone* of the activation (Activation.clone copies the function chain)
                 v = prog.evaluate({"zz": celpy.celtypes.IntType(1)} if p.get("bind") else {})
                 val = celrun.canon(v)
             except CELEvalError:
                 val = "err"
-        except RecursionError:
-            val = "EXC RecursionError"
         except Exception as ex:  # noqa
-            val = f"EXC {type(ex).__name__}"
-        log = ";".join(f"{n}({','.join(a)})" for n, a in REC)
-        if p["style"] == "L":
-            # a list-bound function is known to CEL under its __name__; the recorder logs the spec key
-            pass
-        return f"{val} | {log}"
+            val = self._exc(ex)
+        # (a list-bound function is known to CEL under its __name__; the recorder logs the spec key)
+        return f"{val} | " + ";".join(f"{n}({','.join(a)})" for n, a in REC)
+
+    def run_prog(self, p, envs: Optional[Dict[str, Any]] = None) -> str:
+        REC.clear()
+        if p.get("again") and self._last is not None:
+            # evaluate the program object of the previous step once more (same runner object, same activation)
+            return self.eval_prog(self._last, p)
+        self._last, err = self.build_prog(p, envs)
+        if err:
+            return f"{err} | "
+        return self.eval_prog(self._last, p)
 
     _last = None
 
     def impl(self, c):
         envs = {} if c.get("share_env") else None
         self._last = None
+        if c.get("build_first"):
+            # an application that builds all its programs at start-up and evaluates them later: every program keeps ITS functions
+            REC.clear()
+            built = [self.build_prog(p, envs) for p in c["progs"]]
+            return " ## ".join((f"{err} | " if err else self.eval_prog(prog, p)) for (prog, err), p in zip(built, c["progs"]))
         return " ## ".join(self.run_prog(p, envs) for p in c["progs"])
 
     # ---- model -------------------------------------------------------------------------------------
